@@ -1,8 +1,13 @@
 """C29 - wrapped input files parse back to the values written.
 
-Spec: spec/mech/FileWrap.tla (+ FileWrapMC.tla).  TLC (1) checks ReadBack, OthersUnchanged,
+Spec: spec/mech/FileWrap.tla (+ FileWrapMC.tla).  TLC (1) checks ReadBack, ArrayReadBack, OthersUnchanged,
 AnchorSemantic, RejectLeaves, AnchorStable on every operation sequence up to the depth bound;
-(2) exports every transition {sc, f, a, t, r} of the bounded state graph.  Each exported transition
+(2) exports every transition {sc, f, a, t, r} of the bounded state graph.  transfer_array is specified
+with its row_end argument (an array wrapped over several lines: fields fs.. of the first line, whole
+lines in between, fields ..fe of the last) and FileParser.transfer_array(rowstart, fieldstart, rowend,
+fieldend) as the spec's ReadArray over the same locations.  The delimiter set is a parameter of the
+scenario the spec does not depend on; two of the four sets hold characters that are special in a regular
+expression (']' and '-').  Each exported transition
 is executed on a real InputFileGenerator (driven from the rendered template along a shortest path
 of real API calls to the source state), once per candidate Python value of its value slot; the
 generated file is then read back field by field with a real FileParser (same delimiters; the
@@ -683,7 +688,7 @@ def run(ctx):
     else:
         jobs = [('AllScenarios', 2, None, 'WrapAll'), ('DeepScenarios', 3, 2, 'WrapNone'),
                 ('DelimScenariosAll', 1, None, 'WrapAll')]
-    wrap_k = 5 if quick else 9
+    wrap_k = 5 if quick else 6
     rng = random.Random(ctx.seed)
     nu = len(UNIVERSE)
     res = []
@@ -760,6 +765,8 @@ def run(ctx):
                 n_wrapped += wrapped(a)
                 tasks.append((k, ei, tid, cands))
             n_states += 1
+        if wrap != 'WrapNone' and not any(wrapped(g.adj[k][ei][0]) for (k, ei, _, _) in tasks):
+            raise MachineryError('vacuous: no wrapped-array transition in the graph of %s' % scn_name)
         rng.shuffle(tasks)
         _B = Binder(g, scen, ctx.tier, ctx.seed, ctx.work)
         gc.collect()
@@ -808,26 +815,38 @@ def run(ctx):
     ctx.extra['value_universe'] = [repr(v) for v in UNIVERSE]
     ctx.impl = n_edges
     ctx.evaluations = n
-    ctx.exhaustive = quick
+    ctx.exhaustive = False      # the wrapped-array transitions run with a seeded subset of the candidate values
     if not ctx.samples:
         ctx.sample({'note': 'no passing array-overflow sample', 'runs': n})
     ctx.rule = ('every transition of the FileWrap state graph (2 templates x 2 delimiter sets, all operation '
                 'sequences of length <= %s over mark_anchor(2 anchors, occurrence +-1, +-2), reset_anchor, transfer_var, '
                 'transfer_array (exact / longer than the template), transfer_2Darray, clearline, every row offset and '
                 'field) is executed on a real InputFileGenerator driven by real API calls from the rendered template, '
-                '%s; the generated file is read back completely with FileParser; non-trivial = a passing write run '
+                '%s; transfer_array with row_end (array wrapped over %s lines, every first and last field, exact or '
+                'one value longer) is executed as the last operation from every state of that graph with %d seeded '
+                'candidate values and read back with the multi-line FileParser.transfer_array; delimiter sets with '
+                'regular-expression specials (" ]", " -"): every first operation on the template; the generated '
+                'file is read back completely with FileParser; non-trivial = a passing write run '
                 'that starts from a non-initial generator state (anchor set or file already modified)'
                 % ('2; quick tier: each template with one delimiter set' if quick else '3',
                    'once for each of the %d candidate values of its value slot' % nu if quick else
                    'for every candidate value up to length 2 (both templates x both delimiter sets), two seeded '
-                   'candidates per transition for the third operation (one template)'))
+                   'candidates per transition for the third operation (one template)',
+                   '2' if quick else '2 and 3', wrap_k))
     ctx.assumptions = [
         'values: ' + ', '.join(repr(v) for v in UNIVERSE) + '; one candidate per array, other elements benign',
         'float equality is to 16 significant digits: read == written or read == float("%.16g" % written); the sign of zero counts',
-        'anchor texts never occur inside written values; strings contain no delimiter and do not look like numbers',
+        'anchor texts never occur inside written values; no value text contains a delimiter character (with "-" as '
+        'a delimiter only non-negative values without a negative exponent are written); strings do not look like '
+        'numbers; bool is not a value type of the property (it is written as "True"/"False", a string token)',
+        'a float must be read back as a float also when its 16 significant digits have no fraction '
+        '(1.0000000000000002 -> 1.0, not the int 1)',
         'mark_anchor follows the semantic pinned by the repository tests: with an anchor set the old anchor line '
         '(forward) and the last line of the file (backward) are not candidates',
         'row offsets that leave the file (Python negative-index wrap-around), field numbers that do not exist, arrays '
-        'shorter than the addressed field range, arrays longer than a field range that does not end the line, row_end '
-        'of transfer_array and the "columns" delimiter mode are outside the specification',
+        'shorter than the addressed locations, arrays longer than a location range that does not end the last line, '
+        'the multi-line reader over a line without fields (FileParser refuses empty lines) and the "columns" '
+        'delimiter mode are outside the specification',
+        'TLC checks the plain operations to depth 3 and, in the export runs, all operations including the wrapped '
+        'arrays to depth 2',
     ]
